@@ -1241,7 +1241,16 @@ func (e *Entry) ApplyDeviate(deviateOpts ...DeviateOpt) []error {
 						continue
 					}
 					if !hasIgnoreDeviateNotSupported(deviateOpts) {
-						dp.delete(deviatedNode.Name)
+						switch {
+						case dp.RPC != nil && dp.RPC.Input == deviatedNode:
+							dp.RPC.Input = nil
+						case dp.RPC != nil && dp.RPC.Output == deviatedNode:
+							dp.RPC.Output = nil
+						case dp.Dir[deviatedNode.Name] == deviatedNode:
+							dp.delete(deviatedNode.Name)
+						default:
+							appendErr(fmt.Errorf("%s: node %s to deviate as not-supported was already removed", Source(e.Node), d.DeviatedPath))
+						}
 					}
 				case DeviationDelete:
 					if devSpec.Config != TSUnset {
